@@ -32,7 +32,8 @@ QBad(kind, o, x) ==
       [] kind = "dot" ->
            IF o.snodes # x.snodes THEN "substance-nodes" ELSE IF o.rnodes # x.rnodes THEN "reaction-nodes"
            ELSE IF o.edges # x.edges THEN "edges" ELSE ""
-      [] kind = "order" -> IF o.names # x.names THEN "names" ELSE IF o.arr # x.arr THEN "array" ELSE ""
+      [] kind = "order" -> IF o.names # x.names THEN "names" ELSE IF o.arr # x.arr THEN "array"
+                           ELSE IF o.idx # x.idx THEN "index" ELSE IF o.col # x.col THEN "varied" ELSE ""
       [] kind = "subset" -> IF o.yes # x.yes \/ o.no # x.no THEN "subset" ELSE ""
       [] kind = "conv" ->
            IF o.arr # x.arr THEN "array" ELSE IF o.dict # x.dict THEN "dict"
@@ -59,6 +60,7 @@ Step(e) ==
       [] e.op = "DoAdd"    -> Clean(e.obs) /\ DoAdd(e.i, e.j, e.how, e.obs.src, e.obs.ss)
       [] e.op = "DoSort"   -> Clean(e.obs) /\ DoSort(e.i, e.how) /\ e.obs.ss = out'.ss
       [] e.op = "Query"    -> Clean(e.obs) /\ Query(e.i, e.kind, e.arg) /\ QBad(e.kind, e.obs, out'.exp) = ""
+      [] e.op = "Peek"     -> Clean(e.obs) /\ Peek(e.i, e.kind, e.arg) /\ QBad(e.kind, e.obs, out'.exp) = ""
       [] e.op = "QueryCat" -> Clean(e.obs) /\ QueryCat(e.js) /\ QBad("concatn", e.obs, out'.exp) = ""
       [] e.op = "Query2"   -> Clean(e.obs) /\ Query2(e.i, e.j, e.kind) /\ QBad(e.kind, e.obs, out'.exp) = ""
       [] OTHER -> FALSE
@@ -110,7 +112,7 @@ Clause ==
       ELSE IF e.op = "DoSort" THEN
           (IF ~IsSys(e.i) \/ e.how \notin {"name", "rev"} THEN "model:DoSort"
            ELSE IF ObsFault(e.obs) # "" THEN ObsFault(e.obs) ELSE "sorted-order")
-      ELSE IF e.op = "Query" THEN
+      ELSE IF e.op \in {"Query", "Peek"} THEN
           (IF ~IsSys(e.i) THEN "model:Query"
            ELSE IF ~QueryDefined(ws[e.i], e.kind, e.arg) THEN "outside:" \o e.kind
            ELSE IF ObsFault(e.obs) # "" THEN ObsFault(e.obs)
